@@ -1,0 +1,38 @@
+//go:build verif
+
+package gkr
+
+import "github.com/consensys/gnark/frontend"
+
+// VerifTraceHook / VerifVerifyHook (build tag verif only) let a harness observe the in-circuit GKR
+// verifier: the circuit, assignment and proof it was called with, and every Fiat-Shamir challenge it
+// derives ("first": the first challenge; "wire": the verifier turns to wire i; "comb": the combination
+// coefficient of that wire's claims; "r": that wire's sum-check challenges).
+var (
+	VerifTraceHook  func(event string, wire int, vals []frontend.Variable)
+	VerifVerifyHook func(c Circuit, sorted []*Wire, assignment WireAssignment, proof Proof)
+)
+
+func verifTrace(event string, wire int, vals ...frontend.Variable) {
+	if VerifTraceHook != nil {
+		VerifTraceHook(event, wire, vals)
+	}
+}
+
+func verifVerifyEntry(c Circuit, sorted []*Wire, assignment WireAssignment, proof Proof) {
+	if VerifVerifyHook != nil {
+		VerifVerifyHook(c, sorted, assignment, proof)
+	}
+}
+
+// VerifGateName returns the name under which g is registered ("" if it is not).
+func VerifGateName(g *Gate) string {
+	gatesLock.Lock()
+	defer gatesLock.Unlock()
+	for name, h := range gates {
+		if h == g {
+			return string(name)
+		}
+	}
+	return ""
+}
